@@ -595,6 +595,9 @@ func newReplicaSetFromInstance(daemonset *datadoghqv1alpha1.ExtendedDaemonSet) (
 	for key, val := range daemonset.Labels {
 		labels[key] = val
 	}
+	// the identity label is not the user's to override: an ExtendedDaemonSet whose own labels carry this key
+	// (with another value) must still find its ReplicaSets, and nobody else's Reconcile must
+	labels[datadoghqv1alpha1.ExtendedDaemonSetNameLabelKey] = daemonset.Name
 	rs := &datadoghqv1alpha1.ExtendedDaemonSetReplicaSet{
 		ObjectMeta: metav1.ObjectMeta{
 			GenerateName: daemonset.Name + "-",
